@@ -472,6 +472,219 @@ def pointAt : List (List K) → List Nat → List K
 theorem dist2_cons (t x : K) (q p : List K) : dist2 (t :: q) (x :: p) = (t - x) * (t - x) + dist2 q p := by
   simp [dist2]
 
+/-! ### nearest neighbour on separated grids: definedness, index → grid point -/
+
+theorem nearestAxis_defined_inc : ∀ (rest : List K) (a b x : K), StrictInc (a :: b :: rest) →
+    a ≤ x → x ≤ (b :: rest).getLast (by simp) → ∃ i, nearestAxis (a :: b :: rest) x = some i := by
+  intro rest
+  induction rest with
+  | nil =>
+    intro a b x hs h1 h2
+    simp only [List.getLast_singleton] at h2
+    rw [nearestAxis_inc_cons hs.1]
+    simp only [h1, h2, decide_true, Bool.and_self, if_true]
+    split_ifs <;> exact ⟨_, rfl⟩
+  | cons c rest ih =>
+    intro a b x hs h1 h2
+    rw [nearestAxis_inc_cons hs.1]
+    by_cases hb : x ≤ b
+    · simp only [h1, hb, decide_true, Bool.and_self, if_true]
+      split_ifs <;> exact ⟨_, rfl⟩
+    · have hb' : b ≤ x := le_of_lt (not_le.mp hb)
+      obtain ⟨i, hi⟩ := ih b c x hs.2 hb' (by simpa [List.getLast_cons] using h2)
+      exact ⟨i + 1, by simp [hb, hi]⟩
+
+theorem nearestAxis_defined_dec : ∀ (rest : List K) (a b x : K), StrictDec (a :: b :: rest) →
+    x ≤ a → (b :: rest).getLast (by simp) ≤ x → ∃ i, nearestAxis (a :: b :: rest) x = some i := by
+  intro rest
+  induction rest with
+  | nil =>
+    intro a b x hs h1 h2
+    simp only [List.getLast_singleton] at h2
+    rw [nearestAxis_dec_cons hs.1]
+    simp only [h1, h2, decide_true, Bool.and_self, if_true]
+    split_ifs <;> exact ⟨_, rfl⟩
+  | cons c rest ih =>
+    intro a b x hs h1 h2
+    rw [nearestAxis_dec_cons hs.1]
+    by_cases hb : b ≤ x
+    · simp only [h1, hb, decide_true, Bool.and_self, if_true]
+      split_ifs <;> exact ⟨_, rfl⟩
+    · have hb' : x ≤ b := le_of_lt (not_le.mp hb)
+      obtain ⟨i, hi⟩ := ih b c x hs.2 hb' (by simpa [List.getLast_cons] using h2)
+      exact ⟨i + 1, by simp [hb, hi]⟩
+
+theorem nearestAxis_defined (ax : List K) (x : K) (h2 : 2 ≤ ax.length) (hs : StrictMono ax)
+    (hin : ∃ a b, ax.head? = some a ∧ ax.getLast? = some b ∧ ((a ≤ x ∧ x ≤ b) ∨ (b ≤ x ∧ x ≤ a))) :
+    ∃ i, nearestAxis ax x = some i := by
+  obtain ⟨a, b, rest, rfl⟩ := head_getLast_split ax h2
+  obtain ⟨a', l, ha, hl, hd⟩ := hin
+  simp only [List.head?_cons, Option.some.injEq] at ha
+  subst ha
+  have hlast : (a :: b :: rest).getLast? = some ((b :: rest).getLast (by simp)) := by
+    simp [List.getLast?_eq_some_getLast, List.getLast_cons]
+  rw [hlast] at hl
+  simp only [Option.some.injEq] at hl
+  subst hl
+  have hmem : (b :: rest).getLast (by simp) ∈ b :: rest := List.getLast_mem _
+  rcases hs with hs | hs
+  · have hlt := knot_gt a (b :: rest) hs _ hmem
+    rcases hd with hd | hd
+    · exact nearestAxis_defined_inc rest a b x hs hd.1 hd.2
+    · exact absurd (lt_of_lt_of_le hlt (le_trans hd.1 hd.2)) (lt_irrefl _)
+  · have hlt := knot_lt a (b :: rest) hs _ hmem
+    rcases hd with hd | hd
+    · exact absurd (lt_of_lt_of_le hlt (le_trans hd.1 hd.2)) (lt_irrefl _)
+    · exact nearestAxis_defined_dec rest a b x hs hd.2 hd.1
+
+/-- per-axis indices that point into the axes -/
+def IdxOk : List (List K) → List Nat → Prop
+  | [], [] => True
+  | ax :: axes, i :: idx => i < ax.length ∧ IdxOk axes idx
+  | _, _ => False
+
+theorem nearestAxis_lt : ∀ (knots : List K) (x : K) (i : Nat), nearestAxis knots x = some i → i < knots.length
+  | [], _, _, h => by simp [nearestAxis] at h
+  | [_], _, _, h => by simp [nearestAxis] at h
+  | a :: b :: knots, x, i, h => by
+    simp only [nearestAxis] at h
+    split at h
+    · split at h <;> split at h <;> simp at h <;> subst h <;> simp
+    · cases h' : nearestAxis (b :: knots) x with
+      | none => simp [h'] at h
+      | some j =>
+        simp [h'] at h
+        have := nearestAxis_lt (b :: knots) x j h'
+        subst h
+        simp at this ⊢
+        omega
+
+theorem nearestIdx_ok : ∀ (axes : List (List K)) (p : List K) (idx : List Nat),
+    nearestIdx axes p = some idx → IdxOk axes idx ∧ p.length = axes.length := by
+  intro axes
+  induction axes with
+  | nil =>
+    intro p idx h
+    cases p with
+    | nil => simp [nearestIdx] at h; subst h; exact ⟨trivial, rfl⟩
+    | cons x p => simp [nearestIdx] at h
+  | cons ax rest ih =>
+    intro p idx h
+    cases p with
+    | nil => simp [nearestIdx] at h
+    | cons x p =>
+      simp only [nearestIdx] at h
+      cases h1 : nearestAxis ax x with
+      | none => rw [h1] at h; simp at h
+      | some i =>
+        cases h2 : nearestIdx rest p with
+        | none => rw [h1, h2] at h; simp at h
+        | some idx' =>
+          rw [h1, h2] at h
+          simp only [Option.some.injEq] at h
+          subst h
+          have hi := nearestAxis_lt ax x i h1
+          obtain ⟨h3, h4⟩ := ih p idx' h2
+          exact ⟨⟨hi, h3⟩, by simp [h4]⟩
+
+theorem flatMap_getElem?_block {α β : Type} (l : List α) (F : α → List β) (M : Nat)
+    (h : ∀ x ∈ l, (F x).length = M) (i j : Nat) (x : α) (hx : l[i]? = some x) (hj : j < M) :
+    (l.flatMap F)[i * M + j]? = (F x)[j]? := by
+  induction l generalizing i with
+  | nil => simp at hx
+  | cons y l ih =>
+    have hy : (F y).length = M := h y (by simp)
+    cases i with
+    | zero =>
+      simp only [List.getElem?_cons_zero, Option.some.injEq] at hx
+      subst hx
+      simp only [List.flatMap_cons, Nat.zero_mul, Nat.zero_add]
+      rw [List.getElem?_append_left (by omega)]
+    | succ i =>
+      simp only [List.getElem?_cons_succ] at hx
+      have := ih (fun x hx' => h x (by simp [hx'])) i hx
+      simp only [List.flatMap_cons]
+      rw [List.getElem?_append_right (by rw [hy]; nlinarith), hy]
+      have e : (i + 1) * M + j - M = i * M + j := by
+        have : (i + 1) * M = i * M + M := by ring
+        omega
+      rw [e, this]
+
+theorem tensorPts_len {α : Type} : ∀ (axes : List (List α)), (tensorPts axes).length = size (axes.map List.length) := by
+  intro axes
+  induction axes with
+  | nil => simp [tensorPts, size]
+  | cons ax rest ih =>
+    simp only [tensorPts, List.length_flatMap, List.length_map, ih, List.map_cons, size_cons]
+    simp
+
+theorem ravel_lt_size : ∀ (axes : List (List K)) (idx : List Nat), IdxOk axes idx →
+    ravel (axes.map List.length) idx < size (axes.map List.length) := by
+  intro axes
+  induction axes with
+  | nil => intro idx _; cases idx <;> simp [ravel, size]
+  | cons ax rest ih =>
+    intro idx h
+    cases idx with
+    | nil => simp [IdxOk] at h
+    | cons i idx =>
+      obtain ⟨h0, h1⟩ := h
+      have := ih idx h1
+      simp only [List.map_cons, ravel, size_cons]
+      calc i * size (rest.map List.length) + ravel (rest.map List.length) idx
+          < i * size (rest.map List.length) + size (rest.map List.length) := by omega
+        _ = (i + 1) * size (rest.map List.length) := by ring
+        _ ≤ ax.length * size (rest.map List.length) := Nat.mul_le_mul_right _ h0
+
+/-- the grid point with per-axis indices `idx` sits at flat index `ravel dims idx` -/
+theorem tensorPts_getElem?_ravel : ∀ (axes : List (List K)) (idx : List Nat), IdxOk axes idx →
+    (tensorPts axes)[ravel (axes.map List.length) idx]? = some (pointAt axes idx) := by
+  intro axes
+  induction axes with
+  | nil => intro idx h; cases idx <;> simp_all [IdxOk, tensorPts, ravel, pointAt]
+  | cons ax rest ih =>
+    intro idx h
+    cases idx with
+    | nil => simp [IdxOk] at h
+    | cons i idx =>
+      obtain ⟨h0, h1⟩ := h
+      simp only [tensorPts, List.map_cons, ravel, pointAt]
+      rw [flatMap_getElem?_block ax _ (size (rest.map List.length)) (by intro t _; simp [tensorPts_len]) i _ ax[i]
+        (by simp [h0]) (ravel_lt_size rest idx h1)]
+      simp [ih idx h1, List.getD_eq_getElem?_getD, h0]
+
+theorem dist2_reverse (a b : List K) (h : a.length = b.length) : dist2 a.reverse b.reverse = dist2 a b := by
+  unfold dist2
+  rw [← List.reverse_zipWith h, List.sum_reverse]
+
+theorem pointAt_mem (axes : List (List K)) (idx : List Nat) (h : IdxOk axes idx) : pointAt axes idx ∈ tensorPts axes :=
+  List.mem_of_getElem? (tensorPts_getElem?_ravel axes idx h)
+
+theorem take_drop_getElem? {α : Type} (v : List α) (a m f : Nat) (hf : f < m) :
+    ((v.drop a).take m)[f]? = v[a + f]? := by
+  simp [List.getElem?_take, hf]
+
+theorem mem_tensorPts_pointAt : ∀ (axes : List (List K)) (t : List K), t ∈ tensorPts axes →
+    ∃ idx, IdxOk axes idx ∧ t = pointAt axes idx := by
+  intro axes
+  induction axes with
+  | nil => intro t ht; simp [tensorPts] at ht; exact ⟨[], trivial, by simp [ht, pointAt]⟩
+  | cons ax rest ih =>
+    intro t ht
+    simp only [tensorPts, List.mem_flatMap, List.mem_map] at ht
+    obtain ⟨a, ha, t', ht', rfl⟩ := ht
+    obtain ⟨idx, hok, rfl⟩ := ih t' ht'
+    obtain ⟨i, hi, rfl⟩ := List.getElem_of_mem ha
+    exact ⟨i :: idx, ⟨hi, hok⟩, by simp [pointAt, List.getD_eq_getElem?_getD, hi]⟩
+
+theorem dot_reverse (c x : List K) (h : c.length = x.length) : dot c.reverse x.reverse = dot c x := by
+  unfold dot
+  rw [← List.reverse_zipWith h, List.sum_reverse]
+
+theorem affine_reverse (c0 : K) (c x : List K) (h : c.length = x.length) :
+    affine c0 c.reverse x.reverse = affine c0 c x := by
+  unfold affine; rw [dot_reverse c x h]
+
 /-! ### supersampling -/
 
 /-- the dithers all have `D` coordinates and add up to the zero vector -/
@@ -601,5 +814,65 @@ theorem sum_odd (n : ℕ) : ((List.range n).map fun j => (((2 * j + 1 : ℕ)) : 
   | succ n ih =>
     rw [List.range_succ, List.map_append, List.sum_append, ih]
     simp; ring
+
+/-! ### supersampling: one width per point, the generator the driver runs -/
+
+theorem deltasInner_length : ∀ (l : List K), 2 ≤ l.length → (deltasInner l).length + 1 = l.length
+  | [a, b], _ => by simp [deltasInner]
+  | a :: b :: c :: rest, _ => by
+      have := deltasInner_length (b :: c :: rest) (by simp)
+      simp only [deltasInner, List.length_cons] at this ⊢; omega
+  | [], h => by simp at h
+  | [_], h => by simp at h
+
+/-- `evaluate_supersampled` computes one cell width per grid point -/
+theorem deltas_length (ax : List K) (h : 2 ≤ ax.length) : (deltas ax).length = ax.length := by
+  match ax, h with
+  | a :: b :: rest, _ =>
+    have := deltasInner_length (a :: b :: rest) (by simp)
+    simp only [deltas, List.length_cons] at this ⊢; omega
+
+theorem tensorPts_map {α β : Type} (φ : α → β) : ∀ (axes : List (List α)),
+    tensorPts (axes.map (List.map φ)) = (tensorPts axes).map (List.map φ)
+  | [] => rfl
+  | ax :: rest => by
+    simp only [List.map_cons, tensorPts, tensorPts_map φ rest, List.flatMap_map, List.map_flatMap,
+      List.map_map]
+    rfl
+
+theorem gridPts_map {α β : Type} (φ : α → β) (sep : List (List α)) :
+    gridPts (sep.map (List.map φ)) = (gridPts sep).map (List.map φ) := by
+  unfold gridPts
+  rw [← List.map_reverse, tensorPts_map, List.map_map, List.map_map]
+  apply List.map_congr_left
+  intro q _
+  simp [List.map_reverse]
+
+/-- the points of the zipped (coordinate, width) grid are the points of the grid itself -/
+theorem gridPts_zip_deltas (sep : List (List K)) (h : ∀ ax ∈ sep, 2 ≤ ax.length) :
+    (gridPts (sep.map fun ax => List.zip ax (deltas ax))).map (List.map Prod.fst) = gridPts sep := by
+  rw [← gridPts_map, List.map_map]
+  congr 1
+  conv_rhs => rw [← List.map_id sep]
+  apply List.map_congr_left
+  intro ax hax
+  simp only [Function.comp, id]
+  exact List.map_fst_zip (le_of_eq (deltas_length ax (h ax hax)).symm)
+
+theorem dot_zero_left (n : Nat) (y : List K) : dot (List.replicate n (0 : K)) y = 0 := by
+  induction n generalizing y with
+  | zero => simp [dot]
+  | succ n ih =>
+    cases y with
+    | nil => simp [dot]
+    | cons t y =>
+      have := ih y
+      simp only [dot] at this
+      simp [dot, List.replicate_succ, this]
+
+/-- the generator the driver runs (`poly`) with all quadratic coefficients zero is `affine` -/
+theorem poly_zero (c0 : K) (c : List K) (n : Nat) : poly c0 c (List.replicate n 0) = affine c0 c := by
+  funext x
+  simp [poly, affine, dot_zero_left]
 
 end HcipyVerif.Interp
